@@ -379,6 +379,7 @@ func run(r *vk.Runner) {
 	cases = append(cases, gj5s.RuleCases()...)
 	cases = append(cases, gj5s.ShapeCases()...)
 	cases = append(cases, gj5s.PipelineCases()...)
+	cases = append(cases, gj5s.OddNameCases()...)
 	for _, c := range gj5s.EntityCases(!r.Quick()) {
 		if !strings.HasPrefix(c.ID, "entity:5.") {
 			cases = append(cases, c)
